@@ -3,6 +3,8 @@ use std::io::Write;
 pub struct Out {
 	pub cases: std::io::BufWriter<std::fs::File>,
 	pub imp: std::io::BufWriter<std::fs::File>,
+	/// per case line: the number of the loop iteration that produced it (for regeneration with VERIF_ONLY)
+	pub idx: std::io::BufWriter<std::fs::File>,
 	pub dir: std::path::PathBuf,
 }
 
@@ -13,11 +15,13 @@ impl Out {
 		Out {
 			cases: std::io::BufWriter::new(std::fs::File::create(d.join("cases.txt")).unwrap()),
 			imp: std::io::BufWriter::new(std::fs::File::create(d.join("impl.txt")).unwrap()),
+			idx: std::io::BufWriter::new(std::fs::File::create(d.join("index.txt")).unwrap()),
 			dir: d,
 		}
 	}
 	pub fn case(&mut self, toks: &[u64]) {
 		write_hex_line(&mut self.cases, toks);
+		let _ = writeln!(self.idx, "{}", CASE_NO.load(std::sync::atomic::Ordering::Relaxed));
 	}
 	pub fn obs(&mut self, toks: &[u64]) {
 		write_hex_line(&mut self.imp, toks);
@@ -28,6 +32,26 @@ impl Out {
 	pub fn finish(mut self) {
 		self.cases.flush().unwrap();
 		self.imp.flush().unwrap();
+		self.idx.flush().unwrap();
+	}
+}
+
+static CASE_NO: std::sync::atomic::AtomicU64 = std::sync::atomic::AtomicU64::new(u64::MAX);
+
+/// The generator of case number `n` of a run: every case has its own stream, derived from the run's seed and its
+/// number, so that a single case can be regenerated (VERIF_ONLY=n) without running the ones before it.
+pub fn case_rng(base: u64, n: u64) -> crate::prng::Rng {
+	CASE_NO.store(n, std::sync::atomic::Ordering::Relaxed);
+	let mut r = crate::prng::Rng::new(base ^ n.wrapping_mul(0xD1B54A32D192ED03));
+	let s = r.next();
+	crate::prng::Rng::new(s)
+}
+
+/// VERIF_ONLY=n: run only case number n
+pub fn skip_case(n: u64) -> bool {
+	match std::env::var("VERIF_ONLY").ok().and_then(|v| v.parse::<u64>().ok()) {
+		Some(o) => o != n,
+		None => false,
 	}
 }
 
@@ -75,7 +99,7 @@ pub fn watch_begin(out: &Out, toks: &[u64]) {
 			let g = WATCH.lock().unwrap();
 			if let Some((t0, line, dir)) = g.as_ref() {
 				if t0.elapsed().as_secs() > limit {
-					let _ = std::fs::write(dir.join("hang.txt"), format!("{}\n{}", limit, line));
+					let _ = std::fs::write(dir.join("hang.txt"), format!("{}\n{}\n{}\n", limit, line.trim_end(), CASE_NO.load(std::sync::atomic::Ordering::Relaxed)));
 					eprintln!("case did not finish within {limit} s");
 					std::process::exit(3);
 				}
